@@ -1665,7 +1665,8 @@ Examples:
                 for k in j:
                     try: x[k] = x[i]
                     except IndexError: pass
-            pairs = list(mask) #XXX: inefficient
+            n = len(x) # an offset only applies if both of the pair are in range
+            pairs = [m for m in mask if all(-n <= k < n for k in m)]
             while pairs: # deal with the offset
                 indx,trac = zip(*pairs)
                 trac = set(trac)
